@@ -14,7 +14,7 @@ from vmon.libutil import monitored
 
 LEVEL = "exploration"
 SHARDS = {"quick": 8, "thorough": 16}
-MUST = ["recorder.rows", "recorder.pprint", "recorder.console", "describe.runs", "parse.runs", "parse.index_valid", "parse.index_out_of_range", "files.empty", "files.truncated", "files.unrecognized_apids", "files.prefixed_skip_header_bytes",
+MUST = ["recorder.rows", "recorder.pprint", "recorder.console", "describe.runs", "parse.runs", "parse.index_valid", "parse.index_out_of_range", "files.empty", "files.truncated", "files.unrecognized_apids", "files.idle_or_zero_apid", "files.prefixed_skip_header_bytes",
         "n.le10", "n.gt10", "parse.beyond_max_items", "parse.with_display_options", "files.duplicate_packets", "flags.none", "flags.-q", "flags.--quiet"]
 RULE = ("case = (packet file of n packets, command, packet index); the recorded rows / pretty-printed object / console "
         "messages are compared with the expectation computed from the packet list: every row once in order for "
@@ -150,7 +150,8 @@ def _run(ctx):
 
     def mkpackets(n):
         return [bytes(packets.create_ccsds_packet(bytes(rng.getrandbits(8) for _ in range(rng.choice([1, 2, 5, 30]))),
-                                                  apid=rng.randrange(2048), sequence_count=i % 16384,
+                                                  apid=rng.choice([rng.randrange(2048), rng.randrange(2048), 2047, 0, 2046]),
+                                                  sequence_count=rng.choice([i % 16384, rng.randrange(16384), 16383 - i % 8192, 8192 + i]),
                                                   version_number=rng.randrange(8), type=rng.randrange(2),
                                                   secondary_header_flag=rng.randrange(2), sequence_flags=rng.randrange(4)))
                 for i in range(n)]
@@ -351,6 +352,17 @@ def _run(ctx):
                     if ctx.mine(item) and (idx is None or idx >= 0):
                         parse(data, idx, "prefixed", skip=skip)
                         ctx.count("files.prefixed_skip_header_bytes")
+        # files of idle / fill packets only (APID 2047) and of APID 0 only, below and beyond the elision threshold
+        for n in (1, 3, 10, 12):
+            for apid in (2047, 0):
+                pk = [bytes(packets.create_ccsds_packet(bytes([j, 1 + j]), apid=apid, sequence_count=16383 - j)) for j in range(n)]
+                data = b"".join(pk)
+                item += 1
+                if ctx.mine(item):
+                    describe(data, "idle-apid" if apid == 2047 else "apid-0")
+                    parse(data, n - 1, "idle-apid" if apid == 2047 else "apid-0")
+                    parse(data, n, "idle-apid" if apid == 2047 else "apid-0")
+                    ctx.count("files.idle_or_zero_apid")
         # files with byte-identical packets (idle / replayed packets) in head and tail
         for n in (2, 4, 7, 10, 11, 13, 24):
             uniq = mkpackets(3)
